@@ -41,6 +41,13 @@ def gen_cases(tier, seed):
         yield {'k': 'window', 'start': g[i], 'tier': tier}
     for now in sorted(set(REC_MIN + [g[-1], 24 * 60 + 1, 47 * 60 + 59])):
         yield {'k': 'now', 'now': now, 'tier': tier}
+    # two lookups with different windows on ONE cassette object, consumed interleaved (lookups are lazy iterators)
+    marks = [0, 12 * 60, 23 * 60 + 30, 24 * 60, 24 * 60 + 30, 36 * 60, 47 * 60 + 30, 48 * 60, 60 * 60, 71 * 60 + 30]
+    for i, s1 in enumerate(marks):
+        yield {'k': 'interleaved', 's1': s1, 'marks': marks, 'tier': tier}
+    # one long-lived cassette: the same open-ended lookup repeated while the clock moves on and recordings keep arriving
+    for s0 in (0, 12 * 60, 23 * 60 + 30, 24 * 60):
+        yield {'k': 'repeat', 'start': s0, 'tier': tier}
 
 
 _clock = [D0]
@@ -104,6 +111,49 @@ def run_case(case):
             for cat, flt, limit in (('Op', None, None), ('OpB', None, None), ('Op', {'m': 1}, None), ('Op', None, 2)):
                 n += 1
                 ok, nt = _one(viols, reader, recs, s, e, cat, flt, limit, 'explicit end')
+                nontrivial += nt
+    elif case['k'] == 'interleaved':
+        recs = build_bucket()
+        _clock[0] = D0 + datetime.timedelta(minutes=g[-1] + 60)
+        reader = S3TapeCassette('bucket', key_prefix='p', read_only=True)
+        s1 = case['s1']
+        for e1 in [m for m in case['marks'] if m >= s1]:
+            for s2 in case['marks']:
+                for e2 in [m for m in case['marks'] if m >= s2][:3]:
+                    n += 1
+                    ref_a = [rid for rid, m, c, md in recs if c == 'Op' and s1 <= m <= e1]
+                    ita = reader.iter_recording_ids('Op', start_date=D0 + datetime.timedelta(minutes=s1), end_date=D0 + datetime.timedelta(minutes=e1))
+                    got_a = []
+                    first = next(ita, None)
+                    if first is not None:
+                        got_a.append(first)
+                    list(reader.iter_recording_ids('Op', start_date=D0 + datetime.timedelta(minutes=s2), end_date=D0 + datetime.timedelta(minutes=e2)))
+                    got_a += list(ita)
+                    if sorted(got_a) != sorted(ref_a):
+                        times = {rid: m for rid, m, c, md in recs}
+                        viols.append(viol('interleaved-lookups', 'window [%s, %s] consumed around another lookup [%s, %s] on the same cassette' % (_fmt(s1), _fmt(e1), _fmt(s2), _fmt(e2)),
+                                          sorted(_fmt(times[r]) for r in ref_a), sorted(_fmt(times.get(r, -1)) for r in got_a)))
+                    elif 0 < len(ref_a) < 13:
+                        nontrivial += 1
+    elif case['k'] == 'repeat':
+        from playback.tape_cassettes.s3.s3_tape_cassette import S3TapeCassette as S3C
+        import pytz
+        st = fakes3.new_store(lambda: pytz.utc.localize(_clock[0]))
+        _clock[0] = D0
+        w = S3C('bucket', key_prefix='p', read_only=False)
+        reader = S3C('bucket', key_prefix='p', read_only=True)   # created once, lives through all the lookups
+        recs = []
+        s = case['start']
+        for m, cat, md in sorted(REC, key=lambda r: r[0]):
+            _clock[0] = D0 + datetime.timedelta(minutes=m)
+            r = w.create_new_recording(cat)
+            r.set_data('k', m)
+            r.add_metadata(dict(md))
+            w.save_recording(r)
+            recs.append((r.id, m, cat, md))
+            if m >= s:
+                n += 1
+                ok, nt = _one(viols, reader, recs, s, None, 'Op', None, None, 'repeated open-ended lookup, now=%s' % _fmt(m))
                 nontrivial += nt
     else:
         now = case['now']
